@@ -4,6 +4,7 @@
 package seeds
 
 import (
+	"crypto"
 	"crypto/sha256"
 	"crypto/x509"
 	encasn1 "encoding/asn1"
@@ -55,16 +56,31 @@ type EmulOpts struct {
 	ExtraAttr int // 0 none, 1 an unknown attribute with a SEQUENCE value, 2 signingCertificateV2-like, 3 both
 	Time      time.Time
 	Sorted    bool // attributes in DER SET OF order (what OpenSSL emits)
+	// beyond the SHA-256-with-signed-attributes profile (valid CMS, but not what C04 allows to verify and C16 speaks of):
+	Hash    crypto.Hash // -md sha384 / sha512 / sha1: digest algorithm, messageDigest and signature all use it (0 = SHA-256)
+	NoAttrs bool        // -noattr: no signed attributes, the signature is over the content
+	// openssl cms -econtent_type <oid>: another content type; CMS then uses SignedData version 3
+	EContentType []uint64
 }
 
 // Emulate builds a SignedData the way the openssl CLI does (attribute kinds,
 // DER-sorted attribute SET, NULL parameters, certificates field), signed with
 // the identity's key over content.
 func Emulate(id gen.Identity, content []byte, o EmulOpts) ([]byte, error) {
+	ctype := cms.OIDData
+	if o.EContentType != nil {
+		ctype = o.EContentType
+	}
+	md := cms.Digest(content)
+	if o.Hash != 0 {
+		h := o.Hash.New()
+		h.Write(content)
+		md = h.Sum(nil)
+	}
 	attrs := []*der.Node{
-		cms.Attr(cms.OIDContentType, der.OID(cms.OIDData...)),
+		cms.Attr(cms.OIDContentType, der.OID(ctype...)),
 		cms.Attr(cms.OIDSigningTime, UTCTime(o.Time)),
-		cms.Attr(cms.OIDMessageDigest, der.Octets(cms.Digest(content))),
+		cms.Attr(cms.OIDMessageDigest, der.Octets(md)),
 	}
 	if o.SMIMECaps {
 		attrs = append(attrs, cms.Attr(cms.OIDSMIMECaps, smimeCaps()))
@@ -78,9 +94,13 @@ func Emulate(id gen.Identity, content []byte, o EmulOpts) ([]byte, error) {
 	if o.Sorted {
 		attrs = cms.SortSetOf(attrs)
 	}
-	b := cms.BuildOpts{ContentType: cms.OIDData, Attrs: attrs, Outer: true, SDVersion: 1, SIVersion: 1, DigestNull: true, SigAlgNull: true}
+	b := cms.BuildOpts{ContentType: ctype, Attrs: attrs, Outer: true, SDVersion: 1, SIVersion: 1, DigestNull: true, SigAlgNull: true,
+		Hash: o.Hash, NoAttrs: o.NoAttrs, Content: content}
 	if o.CMS {
 		b.DigestNull = false
+	}
+	if o.EContentType != nil {
+		b.SDVersion = 3 // RFC 5652 5.1: version 3 when the encapsulated content type is not id-data
 	}
 	if o.Attached {
 		b.EContent = der.Octets(content)
@@ -96,7 +116,9 @@ func SpcContent(digest []byte) ([]byte, error) {
 	return authenticode.CreateSpcIndirectDataContent(digest, 5 /* crypto.SHA256 */)
 }
 
-var libKinds = []string{"lib_data_detached", "lib_spc", "lib_other_oid", "lib_bare", "emul_smime_detached", "emul_smime_attached", "emul_cms_attached", "emul_unsorted"}
+var libKinds = []string{"lib_data_detached", "lib_spc", "lib_other_oid", "lib_bare", "emul_smime_detached", "emul_smime_attached", "emul_cms_attached", "emul_unsorted",
+	// genuine signatures by the signer's key that are outside the profile C04 allows to verify (reference: reject)
+	"emul_noattr_attached", "emul_other_digest"}
 
 // Draw produces a seed: library-made or emulated third-party, with a generated identity.
 func Draw(t *rapid.T, id gen.Identity) Seed {
@@ -144,6 +166,14 @@ func Draw(t *rapid.T, id gen.Identity) Seed {
 			SMIMECaps: rapid.Bool().Draw(t, "caps"), NoCerts: rapid.IntRange(0, 4).Draw(t, "nocerts") == 0, ExtraAttr: rapid.IntRange(0, 3).Draw(t, "extra")}
 		o.Attached = kind == "emul_smime_attached" || kind == "emul_cms_attached" || (kind == "emul_unsorted" && rapid.Bool().Draw(t, "att"))
 		o.CMS = kind == "emul_cms_attached"
+		switch kind {
+		case "emul_noattr_attached":
+			o.NoAttrs, o.Attached = true, true
+		case "emul_other_digest":
+			o.Hash = rapid.SampledFrom([]crypto.Hash{crypto.SHA512, crypto.SHA384, crypto.SHA1}).Draw(t, "md")
+			o.Attached = rapid.Bool().Draw(t, "att2")
+			o.CMS = true
+		}
 		s.Detached = !o.Attached
 		s.Blob, err = Emulate(id, content, o)
 	}
